@@ -102,7 +102,20 @@ func main() {
 		kinds = []string{"empty", "evm", "kv", "valset"}
 	}
 	start := time.Now()
-	budget := 13 * time.Minute // thorough: wall-clock budget for the second level (cap reported)
+	// wall-clock budget of the enumeration (cap reported in the evidence): cases not
+	// started by then are skipped.  Normal load: quick ≈ 30 s, first level of the
+	// thorough tier ≈ 2 min, the rest of the budget goes to the second level.
+	budget := 10 * time.Minute
+	if !run.Quick() {
+		budget = 12 * time.Minute
+	}
+	if v := os.Getenv("VERIF_C06_BUDGET_MIN"); v != "" { // development only
+		var m int
+		fmt.Sscan(v, &m)
+		if m > 0 {
+			budget = time.Duration(m) * time.Minute
+		}
+	}
 
 	// ---- references (write sequence W, reference dump) ----
 	for _, kind := range kinds {
@@ -116,7 +129,15 @@ func main() {
 			first = append(first, kase{Workload: kind, K: k})
 		}
 	}
-	outcomes := c.runAll(first, time.Time{})
+	// kinds interleaved, so that a cut by the budget covers every kind equally
+	sort.SliceStable(first, func(a, b int) bool { return first[a].K < first[b].K })
+	outcomes := c.runAll(first, start.Add(budget))
+	firstDone := 0
+	for _, o := range outcomes {
+		if o != nil {
+			firstDone++
+		}
+	}
 
 	// ---- second level (thorough): every k2 in 1..W_rec(k) ----
 	var second []kase
@@ -124,7 +145,7 @@ func main() {
 	wrecTotal := map[string]int{}
 	if !run.Quick() {
 		for i, o := range outcomes {
-			if o.WRec > 0 && o.Restarted {
+			if o != nil && o.WRec > 0 && o.Restarted {
 				wrecTotal[first[i].Workload] += o.WRec
 				for k2 := 1; k2 <= o.WRec; k2++ {
 					second = append(second, kase{Workload: first[i].Workload, K: first[i].K, K2: k2})
@@ -236,7 +257,7 @@ func main() {
 		evals++
 		restartClasses[o.Class]++
 	}
-	exhaustive := c.inconclusive == 0 && secondDone == secondPlanned && unconfirmed == 0
+	exhaustive := c.inconclusive == 0 && firstDone == len(first)-len(second) && secondDone == secondPlanned && unconfirmed == 0
 	cov := core.Coverage{
 		"evaluations":         evals,
 		"distinct_nontrivial": c.classes.Len(),
@@ -247,9 +268,10 @@ func main() {
 		"crash_runs":                int(c.crashRuns),
 		"subprocesses":              int(c.procs),
 		"first_level_cases":         len(first) - len(second),
+		"first_level_done":          firstDone,
 		"second_level_planned":      secondPlanned,
 		"second_level_done":         secondDone,
-		"second_level_cap":          fmt.Sprintf("wall-clock budget %s for the whole check; cases ordered by (k2, k) so a cut covers every first-level point with its earliest recovery writes", budget),
+		"cap":                       fmt.Sprintf("wall-clock budget %s for the enumeration (first level, then second level); first level ordered by (k, kind), second level by (k2, k, kind), so a cut covers every kind and every first-level point with its earliest recovery writes", budget),
 		"inconclusive":              int(c.inconclusive),
 		"inconclusive_reasons":      c.inconcl.Map(),
 		"retries_write_log_differs": int(c.retries),
